@@ -15,6 +15,7 @@ pub mod c13;
 pub mod c14;
 pub mod c15;
 pub mod c16;
+pub mod c18;
 pub mod common;
 
 pub fn run(ctx: &Ctx) -> Option<CheckOutput> {
@@ -34,6 +35,7 @@ pub fn run(ctx: &Ctx) -> Option<CheckOutput> {
 		"C14" => c14::run(ctx),
 		"C15" => c15::run(ctx),
 		"C16" => c16::run(ctx),
+		"C18" => c18::run(ctx),
 		_ => return None,
 	})
 }
@@ -67,6 +69,7 @@ pub fn replay_file(path: &str) -> i32 {
 			"C14" => c14::replay(case),
 			"C15" => c15::replay(case),
 			"C16" => c16::replay(case),
+			"C18" => c18::replay(case),
 			_ => Some(format!("no replayer for {prop}")),
 		}
 	};
